@@ -49,6 +49,9 @@ package pos
 //@ func (*Validators).GetWeightByIdx
 //@   requires vv != nil && 0 <= i && i < len(vv.cache.weights)
 //@   ensures  result == vv.cache.weights[i]
+//@ func (*Validators).Exists
+//@   requires vv != nil
+//@   ensures  result == has(vv.values, id)
 //@ func (*Validators).GetIdx
 //@   requires vv != nil
 //@   ensures  result == vv.cache.indexes[id]
